@@ -187,7 +187,7 @@ class SmtLibCommand(namedtuple('SmtLibCommand', ['name', 'args'])):
         elif self.name == smtcmd.DECLARE_SORT:
             type_decl = self.args[0]
             outstream.write("(%s %s %d)" % (self.name,
-                                            type_decl.name,
+                                            quote(type_decl.name),
                                             type_decl.arity))
 
         elif self.name in smtcmd.ALL_COMMANDS:
